@@ -40,6 +40,7 @@ type Step struct {
 	Backup       bool              `json:"backup,omitempty"`    // retention: a backup client is configured
 	HWM          uint64            `json:"hwm,omitempty"`       // retention: high-water mark
 	Spill        int               `json:"spill,omitempty"`     // rtx: pages beyond old and new size spilled to the file and freed again
+	NoSync       bool              `json:"no_sync,omitempty"`   // rtx: PRAGMA synchronous=OFF (journal header complete from the start, record count 0xffffffff, never rewritten)
 }
 
 type Obs struct {
@@ -355,6 +356,9 @@ func (h *Runner) genRTX(cur uint32, toWAL bool) Step {
 	if h.Cfg.Clients && cur > 1 && r.Chance(25) {
 		st.JSplit = 1 + r.Intn(3)
 	}
+	if st.JSplit == 0 && r.Chance(15) {
+		st.NoSync = true
+	}
 	if h.Cfg.CommitFaults && cur > 0 && st.Outcome == 0 && !toWAL && r.Chance(15) {
 		st.FailCommit = true
 	}
@@ -447,7 +451,7 @@ func (h *Runner) Exec(st Step) Obs {
 				return
 			}
 			wal := h.WALMode || st.ToWAL
-			tx := lfs.Tx{Writes: map[uint32][]byte{}, NewSize: st.NewSize, Wal: wal, JournalSplit: st.JSplit}
+			tx := lfs.Tx{Writes: map[uint32][]byte{}, NewSize: st.NewSize, Wal: wal, JournalSplit: st.JSplit, NoSync: st.NoSync}
 			for pg, cid := range st.Writes {
 				tx.Writes[pg] = h.page(pg, cid, st.NewSize, wal)
 			}
@@ -526,6 +530,11 @@ func (h *Runner) Exec(st Step) Obs {
 				// a finalised valid journal is one transaction for LiteFS, commit or rollback - except the rollback of the
 				// transaction that would have created the database: there is no database yet and nothing is published
 				if lfs.RollbackOutcome(st.Outcome) != lfs.Commit && len(h.Ref.Pages) == 0 {
+					return
+				}
+				// ... and a rollback before anything was written to the database: SQLite never synced the journal, its
+				// header has no magic, the finalisation is no transaction (with synchronous=OFF the header is complete)
+				if lfs.RollbackOutcome(st.Outcome) == lfs.RollbackBeforeWrite && !st.NoSync {
 					return
 				}
 				h.RefPos++
